@@ -32,6 +32,7 @@ type l1Profile struct {
 	Byz      int            // % of claims that are perturbed
 	Crash    int            // % of blocks with a crash/restart
 	DepFault int            // % of txs with an armed dependency fault
+	HookPct  int            // % of runs that use IBC-permission metadata although Hook is not set
 	GasAbort int            // % of txs with a tiny gas limit
 	Periods  []time.Duration
 	Hook     bool // permissioned-channel metadata + IBC stub traffic
@@ -52,6 +53,7 @@ type pendingTx struct {
 }
 
 type l1World struct {
+	hook        bool // IBC-permission metadata, stub traffic and the admin-table comparison are on in this run
 	r           *core.Run
 	p           *l1Profile
 	db          *dbm.MemDB
@@ -127,6 +129,7 @@ func (w *l1World) fail(m mismatch) *core.Violation {
 func newL1World(r *core.Run, p *l1Profile) *l1World {
 	w := &l1World{r: r, p: p, db: dbm.NewMemDB(), univ: map[uint64][]withdrawal{}, wseq: map[uint64]uint64{}, commits: map[prover.Hash]*commitment{},
 		prevDig: map[string][32]byte{}, succ: map[string]int{}, paid: map[string]int{}}
+	w.hook = p.Hook || (p.HookPct > 0 && r.Chance(p.HookPct, 100))
 	nu := 4 + r.Intn(4)
 	for i := 0; i < nu; i++ {
 		a := node.AddrN("user", i)
@@ -231,7 +234,7 @@ func (w *l1World) randHash() prover.Hash {
 }
 
 func (w *l1World) genMetadata() []byte {
-	if !w.p.Hook {
+	if !w.hook {
 		switch w.r.Intn(3) {
 		case 0:
 			return nil
@@ -992,7 +995,7 @@ func (w *l1World) pickTime() time.Time {
 }
 
 func (w *l1World) genStubOps() []node.StubOp {
-	if !w.p.Hook {
+	if !w.hook {
 		return nil
 	}
 	var ops []node.StubOp
@@ -1446,7 +1449,7 @@ func (w *l1World) compare(bc blockCtx, changed bool) *core.Violation {
 		}
 	}
 	// 4. IBC stub tables (C19)
-	if w.p.Hook {
+	if w.hook {
 		dump := w.n.StubDump(ctx)
 		for k, v := range w.m.Admin {
 			if dump["adm/"+k] != fmt.Sprintf("%x", v) {
